@@ -414,7 +414,36 @@ class Run:
         self.cov["axioms"] = axioms
         self.cov["theorems"] = list(theorems)
         self.phase("P1_proof", ok=not (missing or bad), axioms=axioms)
+        if self.tier == "thorough" and os.environ.get("VERIF_NO_COQCHK") != "1":
+            self.coqchk_phase()
         return not (missing or bad)
+
+    def coqchk_phase(self):
+        """thorough tier: the independent checker re-checks the compiled closure of Props/<id>.vo; every axiom it lists
+        must be declared by the standard library (path Coq.*: Uint63/Float primitives and their specs, the classical
+        axioms Flocq imports), none by this development or an add-on library; no type-in-type / unsafe fixpoints /
+        assumed positivity."""
+        try:
+            rc, out = sh(["coqchk", "-silent", "-o", "-Q", COQ, "Echo", f"Echo.Props.{self.prop}"], timeout=2400)
+        except Exception as e:      # noqa
+            self.is_broken("coqchk", repr(e)); return
+        sect, ax, flags = None, [], {}
+        for ln in out.splitlines():
+            m = re.match(r"^\* (.*?):\s*(.*)$", ln)
+            if m:
+                sect = m.group(1); flags[sect] = m.group(2).strip()
+            elif sect == "Axioms" and ln.strip():
+                ax.append(ln.strip())
+        foreign = [a for a in ax if not a.startswith("Coq.")]
+        unsafe = {k: v for k, v in flags.items() if k not in ("Axioms", "Theory") and v not in ("<none>", "")}
+        if flags.get("Theory", "Set is predicative") != "Set is predicative":
+            unsafe["Theory"] = flags["Theory"]
+        ok = rc == 0 and not foreign and not unsafe
+        self.cov["coqchk"] = {"ok": ok, "axioms_in_closure": len(ax), "non_stdlib_axioms": foreign,
+                              "stdlib_axiom_families": sorted({".".join(a.split(".")[:5]) for a in ax})}
+        self.phase("P1b_coqchk", ok=ok, axioms=len(ax))
+        if not ok:
+            self.is_broken("coqchk", f"rc={rc} foreign={foreign} unsafe={unsafe} tail={out[-600:]}")
 
     def tables_phase(self, area):
         """P2: regenerate the table-shaped parts of the model (area Sched|Bus|Guard) from /repo's current source and
